@@ -51,6 +51,9 @@ def main : IO Unit := do
       IO.println s!"FAIL retag_keeps_ownership_partial | {r.name} | a member owned under the old tag is neither released by the retagging block nor by the arm of the new tag ({tagName r.tag}) of the delete function"
   if !(rowsFrom dels 0 && idsFrom fields 0 && fields.length == nFields && borrowedAlways.all (· < nFields)) then
     IO.println "FAIL own_table_consistent | layout of the generated table"
+  for r in localAllocs do
+    if r.lost then
+      IO.println s!"FAIL local_allocations_handed_on | {r.name}"
   for p in problems do
     IO.println s!"FAIL own_table_consistent | translator: {p}"
   for w in wildStores do
